@@ -25,6 +25,9 @@ def execute(prop, tier, sc, topo):
             raise Inconclusive("schedule enumeration failed:\n" + out[-1500:])
         mcstates += tlc_stats(out)["distinct"]
         scheds += printed(out, "S")
+    if mech == "usecase":
+        # the first process adds a use case, changes the availability of an existing one, or removes it
+        scheds = [dict(x, variant=v) for v in (0, 1, 2) for x in scheds]
     open(sc.path("topo.json"), "w").write(topo)
     sf, tf = sc.path("race_scheds.ndjson"), sc.path("race_trace.ndjson")
     open(sf, "w").write("\n".join(json.dumps(x) for x in scheds) + "\n")
